@@ -357,24 +357,9 @@ func (x *cluster) probeAll(ackH uint64, E []uint64, only int) []probe {
 			}
 		case v.Accepted && !expected:
 			x.r.Count("probes_accepted_while_own_spork_not_enforced", 1)
-			// root cause attribution: is a spork consulted earlier by GetEmbeddedMethod enforced at the acknowledged height?
-			enabler := -1
-			for t := range E {
-				if t != kind.Spork && E[t] != 0 && ackH >= E[t] && tableRank[t] > tableRank[kind.Spork] {
-					enabler = t
-				}
-			}
-			if enabler >= 0 {
-				x.r.Add("cumulative_table_manifestations", fmt.Sprintf("%s spork enforced, %s spork not => %s available", featNames[enabler], featNames[kind.Spork], kind.Name))
-				x.violate(keyCumulative,
-					fmt.Sprintf("%s is ACCEPTED: the %s spork is enforced (from %d) and its method table contains the methods gated by the %s spork",
-						what, featNames[enabler], E[enabler], featNames[kind.Spork]))
-			} else {
-				x.violate("C17:spork-active-before-enforcement-height:"+kind.Name+":ack=E"+relStr(ackH, own),
-					fmt.Sprintf("%s is ACCEPTED although no spork that could make it available is enforced at the acknowledged height", what))
-			}
+			x.tooEarly(kind.Spork, kind.Name, ackH, E, what+" is ACCEPTED, i.e.")
 		case !v.Accepted && expected:
-			x.violate("C17:gated-call-refused-at-or-after-enforcement-height:"+kind.Name+":ack=E"+relStr(ackH, own),
+			x.violate("C17:gated-call-refused-at-or-after-enforcement-height:"+featNames[kind.Spork]+":ack=E"+relStr(ackH, own),
 				fmt.Sprintf("%s is REFUSED: %v", what, v.OwnErr))
 		}
 	}
@@ -387,10 +372,10 @@ func relStr(a, e uint64) string {
 	}
 	d := int64(a) - int64(e)
 	if d > 2 {
-		return "+>2"
+		return "+3-or-more"
 	}
 	if d < -3 {
-		return "-<3"
+		return "-4-or-less"
 	}
 	return fmt.Sprintf("%+d", d)
 }
@@ -504,6 +489,7 @@ func runGate(c *xs.Ctx, r *xs.Result, it item) {
 		}
 		if it.Mode == "live" {
 			probes = append(probes, x.probeAll(h, E, -1)...)
+			x.sweep(h, E)
 		}
 		x.step()
 	}
@@ -528,6 +514,7 @@ func runGate(c *xs.Ctx, r *xs.Result, it item) {
 		}
 		for a := winLo; a <= winHi && !x.failed; a++ {
 			probes = append(probes, x.probeAll(a, E, -1)...)
+			x.sweep(a, E)
 		}
 	}
 	for i := 0; i < 3; i++ {
